@@ -183,6 +183,7 @@ func runC02(w *World, r *Report) {
 		}
 		if cp := w.Func(pkgReader, "", "copyMsgPositions"); cp != nil {
 			ok := false
+			var shared token.Pos
 			eachInstr(cp, func(in ssa.Instruction) {
 				st, isSt := in.(*ssa.Store)
 				if !isSt {
@@ -193,8 +194,18 @@ func runC02(w *World, r *Report) {
 				}
 				if c, isC := st.Val.(*ssa.Call); isC && callSym(c.Common()).name == "Clone" {
 					ok = true
+				} else {
+					// an element of the input stored as it is (a conditional "no need to clone" path)
+					for _, x := range backSlice(st.Val, SliceOpts{MaxDepth: 5, NoAggregates: true}) {
+						if strings.HasPrefix(w.accessPath(x), "param:"+cp.Params[0].Name()) {
+							shared = st.Pos()
+						}
+					}
 				}
 			})
+			if shared.IsValid() {
+				ok = false
+			}
 			r.Check(ok, "C02-R2", "copyMsgPositions | clones every element", cp.Pos(), "newPositions[i] = typeutil.Clone(pos)", "copyMsgPositions copies the slice but shares the MsgPosition objects: renaming one stream's pack positions rewrites another stream's")
 		} else {
 			r.Undecided("C02-R2", "copyMsgPositions", 0, "anchor not found")
